@@ -484,9 +484,12 @@ class Interp(Engine):
         base_pc = len(self.pc)
         work = [[]]
         guard0 = len(self.pc)
+        rand0 = dict(self.rand_count)
+        rand_max = dict(rand0)
         while work:
             prefix = work.pop()
             env2 = dict(pre_env)
+            self.rand_count = dict(rand0)     # call ordinals of random functions are per iteration, equal on all body paths
             for name in assigned:
                 if name in pre_env:
                     env2[name] = Carried(name, pre_env[name])
@@ -522,6 +525,8 @@ class Interp(Engine):
             finally:
                 self.loops.pop()
                 self.scopes.pop()
+            for kq, vq in self.rand_count.items():
+                rand_max[kq] = max(rand_max.get(kq, 0), vq)
             guard = z3.And(self.pc[base_pc + 1:]) if len(self.pc) > base_pc + 1 else z3.BoolVal(True)
             paths.append(dict(guard=guard, env=env2, effects=list(loop.effects), outcome=outcome, result=result,
                               carried_reads=set(loop.carried_reads)))
@@ -529,6 +534,7 @@ class Interp(Engine):
             if len(paths) > 64:
                 raise Undecided('too many paths in loop body')
         del self.pc[base_pc:]
+        self.rand_count = rand_max
         # ---- exceptions inside the body: the loop raises iff some iteration does
         raising = [p for p in paths if p['outcome'] != 'normal']
         normal = [p for p in paths if p['outcome'] == 'normal']
@@ -714,7 +720,22 @@ class Interp(Engine):
             if all(isinstance(v, Carried) for _, v in vals):
                 continue
             if any(isinstance(v, (Carried, FoldAcc)) for _, v in vals):
-                env[name] = Poison(f'variable {name!r} assigned on some loop paths only')
+                # assigned on some paths only: fine if every assignment re-binds the value it had before the loop
+                pre = pre_env.get(name)
+                same = pre is not None and not isinstance(pre, (Carried, FoldAcc))
+                if same:
+                    for pth, (g, v) in zip(paths, vals):
+                        if isinstance(v, (Carried, FoldAcc)):
+                            continue
+                        try:
+                            st, _, _ = self.prove(self.veq(v, pre), pc=self.pc + [z3.And(i >= 0, i < n), g])
+                        except Undecided:
+                            st = 'unknown'
+                        same = same and st == 'proved'
+                if same:
+                    env[name] = pre
+                else:
+                    env[name] = Poison(f'variable {name!r} assigned on some loop paths only')
                 continue
             try:
                 self.subst_facts(last)
@@ -1126,6 +1147,10 @@ class Interp(Engine):
                 return len(base.shape)
             if isinstance(base, ArrV) and name == 'T' and len(base.shape) <= 1:
                 return base
+            if isinstance(base, (SeqV, ArrV)) and name in ('T', 'size', 'dtype'):
+                return self.app(f'attr.{name}', [base], tag='ndarray' if name == 'T' else None)
+            if isinstance(base, SeqV) and name == 'shape' and base.kind == 'array':
+                return (self.seq_len(base),)
             if isinstance(base, SV) and base.shape is not None and name in ('shape', 'ndim', 'T'):
                 if name == 'shape':
                     return tuple(SV(d, 'int') if z3.is_expr(d) else d for d in base.shape)
@@ -1462,6 +1487,9 @@ class Interp(Engine):
             bound = self.bind_args(fn.node, args, kwargs, self_val=fn.self_val, module=fn.module)
         else:
             bound = None
+        if con is not None and con.random:
+            self.used_contracts.add(fn.name + ' (havoc: arbitrary outcome per call instance)')
+            return self.havoc(fn.name, [bound[p] for p in bound], con.ret)
         if con is not None and not con.inline:
             self.used_contracts.add(fn.name)
             if con.requires is not None:
@@ -1490,6 +1518,32 @@ class Interp(Engine):
         return self.app(fn.name, list(args) + ([DictV(kwargs)] if kwargs else []))
 
     no_inline = set()
+
+    def havoc(self, qual, args, ret, k=None, idxs=None):
+        """result of the k-th call instance (on this path) of a function with random outcome: an uninterpreted
+        function of the call ordinal, the indices of the active symbolic loops and the arguments.  Contracts refer
+        to the same value with havoc(qual, args, ret, k=..., idxs=...)."""
+        if k is None:
+            k = self.rand_count.get(qual, 0)
+            self.rand_count[qual] = k + 1
+        if idxs is None:
+            idxs = [l.idx for l in self.loops]
+        base = self.app(f'{qual}#{k}', [SV(i, 'int') if z3.is_expr(i) else i for i in idxs] + list(args))
+        return self.shape_ret(base, ret)
+
+    def shape_ret(self, base, ret):
+        if ret is None or ret == 'val':
+            return base
+        if isinstance(ret, tuple):
+            return tuple(self.shape_ret(self.app('getitem', [base, k]), r) for k, r in enumerate(ret))
+        if ret.startswith('obj:'):
+            return Obj(base.z, ret[4:], app=base.app)
+        if ret == 'ndarray':
+            base.tag = 'ndarray'
+            return base
+        if ret == 'int':
+            return SV(self.as_int(base), 'int')
+        return base
 
     inline = set()
 
